@@ -210,9 +210,13 @@ def kind_name(r):
 
 def delivery_term(sc, d):
     st = d['step']
+    # what the reply Publisher answered is an INPUT of the model (p_pub_ok): scripted failures, and - rarely, when a loaded
+    # machine lets the teardown overtake a late redelivery - a real "Pub/Sub closed" error of GoChannel itself
+    pubrets = [e[1] for e in d['events'] if e[0] == 'pubret']
+    pub_ok = pubrets[0] if pubrets else not st['pubfail']
     cfg = '(PCfg %s %s %s)' % (C.coq_bool(sc['ack_errors']), C.coq_bool(sc['has_modify']), C.coq_bool(sc['has_errh']))
     inp = '(PIn true %s %s %s %s true true %s %s %s %s)' % (N(d['op']), N(max(d['res'], 0)), ('(Some %s)' % N(d['err'])) if d['haserr'] else 'None', N(d['nid']),
-                                                    C.coq_bool(not st['pubfail']), C.coq_bool(st['swallow']), EK[d.get('errkind', 0)], CX[d.get('ctxstate', 0)])
+                                                    C.coq_bool(pub_ok), C.coq_bool(st['swallow']), EK[d.get('errkind', 0)], CX[d.get('ctxstate', 0)])
     enc = C.coq_list(['(%s, %s)' % (N(max(d['enc'][0], 0)), optN(d['enc'][1]))])
     tr = []; final = 'Unsettled'; bad = []
     for e in d['events']:
@@ -385,6 +389,23 @@ def run_glue(ctx, res, data):
             res.violations.append(dict(signature='C18/handler-branch', what='direct call of the request-reply command handler rejected by processed_ok (composed with the C02 Router model)', case=chunk[i][0]))
         for i in r['R_mis']:
             res.mismatches.append(dict(kind='Corr.C18.c18_onproc_mismatch (ReqReply/Processed.v on_processed vs handler.go + OnCommandProcessed + MarshalReply, direct call)', explained_by_violation=i in r['R_vio'], case=chunk[i][0]))
+    acases = []
+    for a in data.get('api_cases') or []:
+        res.evaluations += 1
+        if a['kind'] == 'v':
+            acases.append((a, '(AV (VC %s) %s)' % (' '.join(C.coq_bool(x) for x in a['flags']), C.coq_bool(a['accepted']))))
+            res.count('api_cases:NewPubSubBackend validation')
+        else:
+            acases.append((a, '(AL %s (LI %s) (AO %s %d))' % (C.coq_bool(a['hook']), ' '.join(C.coq_bool(x) for x in a['in']), ' '.join(C.coq_bool(x) for x in a['obs']), a['hooks'])))
+            res.count('api_cases:SendWithReplies exits without a channel')
+    if acases:
+        r = C.coq_eval(pid, 'cases_api', HEADER.replace('Corr.C18.', 'ReqReply.Caller ReqReply.Api Corr.C18.') + 'Definition cases : list c18_api_case := %s.\n' % C.coq_list([c[1] for c in acases]),
+                       [('R_vio', 'c18_api_violations cases')])
+        for i in r['R_vio']:
+            a = acases[i][0]
+            res.violations.append(dict(signature='C18/api:' + ('validation' if a['kind'] == 'v' else 'send-with-replies-exit'),
+                                       what='API glue rejected by the acceptor of ReqReply/Api.v (%s)' % ('validate_ok: NewPubSubBackend accepts exactly the complete configurations' if a['kind'] == 'v' else
+                                            'api_ok: error exits hand back (nil channel, cancel func, error), cancel the Subscribe context, and a listener already started finishes: closed, hook once'), case=a))
     for c in data.get('api_checks') or []:
         res.evaluations += 1
         res.count('api_error_path_checks')
